@@ -39,6 +39,7 @@ type VerifyOpts struct {
 	NoAuto   bool
 	Hooks    func(e *Exec) // property-specific hooks (locks, labels)
 	Alloc    bool          // generate allocation-bound obligations
+	NoRetry  func(name string) bool // obligations expected to fail (known findings): no long retry
 }
 
 func (e *Exec) setupEntry() {
@@ -151,7 +152,19 @@ func (p *Program) VerifyFunction(f *ssa.Function, vo *VerifyOpts) (res *FnResult
 		if len(cands) == 0 {
 			break
 		}
-		SolveAll(cands, 3, vo.Workers, vo.Keep)
+		SolveAll(cands, 4, vo.Workers, vo.Keep)
+		// a candidate that only timed out is retried once with a longer limit before it is dropped, so that
+		// machine load does not change which invariants are inferred
+		var retry []*Obligation
+		for _, o := range cands {
+			if o.Status == "unknown" {
+				o.Status = ""
+				retry = append(retry, o)
+			}
+		}
+		if len(retry) > 0 {
+			SolveAll(retry, 15, 2, vo.Keep)
+		}
 		dropped := false
 		for key, os := range e.root.candObls {
 			for _, o := range os {
@@ -193,6 +206,17 @@ func (p *Program) VerifyFunction(f *ssa.Function, vo *VerifyOpts) (res *FnResult
 		}
 	}
 	SolveAll(todo, vo.TimeoutS, vo.Workers, vo.Keep)
+	// timeouts are retried once with a longer limit (a loaded machine must not turn into an alarm)
+	var again []*Obligation
+	for _, o := range todo {
+		if o.timedOut && (vo.NoRetry == nil || !vo.NoRetry(o.Name)) {
+			o.Status = ""
+			again = append(again, o)
+		}
+	}
+	if len(again) > 0 {
+		SolveAll(again, 3*vo.TimeoutS, 4, vo.Keep)
+	}
 	res.Obls = obls
 	res.Notes = e.vc.Notes
 	for t := range e.vc.Trusted {
